@@ -160,10 +160,23 @@ Definition consistent (r : R) (V : nat -> R) : Prop :=
   forall s, (s < nS m)%nat -> inC s = true ->
     Rabs (V s - Qval m (Vm m V) s (pol s)) <= r.
 
-Lemma Vm_masked V s : masked m s = true -> Vm m V s = 0.
-Proof. intros H. unfold Vm. now rewrite H. Qed.
+Lemma absflag_masked s : absflag m s = true -> masked m s = true.
+Proof. intros H. unfold masked, absorbing. rewrite H. now rewrite !orb_true_r. Qed.
 Lemma Vm_unmasked V s : masked m s = false -> Vm m V s = V s.
-Proof. intros H. unfold Vm. now rewrite H. Qed.
+Proof.
+  intros H. unfold Vm. destruct (absflag m s) eqn:E; [|reflexivity].
+  apply absflag_masked in E. congruence.
+Qed.
+Lemma Vm_cases V s : Vm m V s = 0 \/ Vm m V s = V s.
+Proof. unfold Vm. destruct (absflag m s); auto. Qed.
+(* at a masked state of C the value itself is within r of 0, and so is what the look-ahead sees *)
+Lemma Vm_masked_small r V s :
+  0 <= r -> masked m s = true -> Rabs (V s - Qval m (Vm m V) s (pol s)) <= r ->
+  - r <= Vm m V s <= r.
+Proof.
+  intros Hr Hm Hc. rewrite Qval_masked in Hc by auto. apply Rabs_le_inv' in Hc.
+  destruct (Vm_cases V s) as [E|E]; rewrite E; lra.
+Qed.
 
 (* values that are r-consistent with the policy on C are within r*N of the policy's own values *)
 Theorem eval_close V Vpi N r :
@@ -179,7 +192,8 @@ Proof.
     - apply (weighted_bound N (fun s => W s - Vpi s) r HC HN Hr); auto.
       clear s Hs Hin. intros s Hs Hin. rewrite psum_minus.
       destruct (masked m s) eqn:Hm.
-      + unfold W. rewrite Vm_masked by auto. rewrite (Hpe s Hs Hin), Qval_masked by auto.
+      + pose proof (Vm_masked_small r V s Hr Hm (Hcons s Hs Hin)) as Hsm. fold W in Hsm.
+        rewrite (Hpe s Hs Hin), Qval_masked by auto.
         rewrite !psum_masked by auto. lra.
       + unfold W at 1. rewrite Vm_unmasked by auto.
         pose proof (Hcons s Hs Hin) as Hc. apply Rabs_le_inv' in Hc.
@@ -187,7 +201,8 @@ Proof.
     - apply (weighted_bound N (fun s => Vpi s - W s) r HC HN Hr); auto.
       clear s Hs Hin. intros s Hs Hin. rewrite psum_minus.
       destruct (masked m s) eqn:Hm.
-      + unfold W. rewrite Vm_masked by auto. rewrite (Hpe s Hs Hin), Qval_masked by auto.
+      + pose proof (Vm_masked_small r V s Hr Hm (Hcons s Hs Hin)) as Hsm. fold W in Hsm.
+        rewrite (Hpe s Hs Hin), Qval_masked by auto.
         rewrite !psum_masked by auto. lra.
       + unfold W at 1. rewrite Vm_unmasked by auto.
         pose proof (Hcons s Hs Hin) as Hc. apply Rabs_le_inv' in Hc.
@@ -600,8 +615,8 @@ Proof. intros Hs Hm. rewrite (Hfix s Hs). apply Top_masked; auto. Qed.
 Lemma inv_upper_Vm st :
   inv_upper st -> forall s, (s < nS m)%nat -> Vs s <= Vm m (sV st) s + slack.
 Proof.
-  intros H s Hs. unfold Vm. destruct (masked m s) eqn:Hm; [|apply H; auto].
-  rewrite (Vs_masked s Hs Hm). pose proof slack_ge. numR. lra.
+  intros H s Hs. unfold Vm. destruct (absflag m s) eqn:Hm; [|apply H; auto].
+  rewrite (Vs_masked s Hs (absflag_masked m s Hm)). pose proof slack_ge. numR. lra.
 Qed.
 
 (* this is the sub-MDP argument (DESIGN: submdp_upper): revising Z with boundary values that are
@@ -615,10 +630,17 @@ Proof.
   assert (Hm' : forall s, (s < nS m)%nat -> Vs s - Vm m (sV st') s - slack <= 0).
   { apply (sup_pos_part_zero m (fun s => Vs s - Vm m (sV st') s - slack) Wf G1).
     intros D HD0 Hpos i Hi He HDpos. cbv beta in He.
+    destruct (H i Hi) as (_ & HZt & HZf).
     destruct (masked m i) eqn:Hmi.
-    { rewrite Vm_masked, (Vs_masked i Hi Hmi) in He by auto. lra. }
+    { exfalso. rewrite (Vs_masked i Hi Hmi) in He.
+      destruct (Vm_cases m (sV st') i) as [E|E]; rewrite E in He; [lra|].
+      destruct (Z i) eqn:HZ.
+      - destruct (HZt eq_refl) as (_ & _ & _ & Hc & _). rewrite Qval_masked in Hc by auto.
+        apply Rabs_le_inv' in Hc. lra.
+      - destruct (HZf eq_refl) as (HV & _). rewrite HV in He. specialize (Hinv i Hi).
+        rewrite (Vs_masked i Hi Hmi) in Hinv. lra. }
     rewrite Vm_unmasked in He by auto.
-    destruct (H i Hi) as (_ & HZt & HZf). destruct (Z i) eqn:HZ.
+    destruct (Z i) eqn:HZ.
     2:{ destruct (HZf eq_refl) as (HV & _). rewrite HV in He. specialize (Hinv i Hi). lra. }
     destruct (HZt eq_refl) as (_ & _ & _ & _ & Hgr).
     pose proof (backup_some m Vs i Wf Hi) as Hb. unfold backup in Hb.
